@@ -340,7 +340,8 @@ def holds_coerced(v: dict, x: dict, held: dict) -> bool:
             if hv != xv:
                 return False
             if x["cls"]["kind"] == 1 and not x["cls"]["slots"]:
-                return held["oid"] == x.get("doid", 0) and held["oid"] != 0   # the instance's own __dict__
+                # the instance's own __dict__ (instances built from defaults carry no registered identity)
+                return held["oid"] == x.get("doid", 0)
             return held["oid"] == 0
         return True
     return False
@@ -647,7 +648,7 @@ def oracle_C17(case: dict, real: dict, model: dict) -> List[str]:
     env = case.get("env", [])
     if not idem_tree(case["v"], env):
         return out
-    if not defaults_accepted(case["v"], env):
+    if not defaults_accepted([case["v"]] + list(env), env):
         return out
     for m in MODES:
         o = real[m]["out"]
@@ -660,8 +661,12 @@ def oracle_C17(case: dict, real: dict, model: dict) -> List[str]:
         if "raised" in r2:
             out.append(f"{m}: re-validating the payload raised {r2['raised']}")
         elif "valid" not in r2:
-            out.append(f"{m}: the validator rejects its own payload ({r2['invalid']['err']['e']})")
-        elif strip_ids(norm(r2["valid"])) != strip_ids(norm(w)):
+            cp = container_pred_node(case["v"], env, r2["invalid"])
+            if cp:
+                out.append(f"{m}: the validator rejects its own payload: container predicate {cp} fails on the payload")
+            else:
+                out.append(f"{m}: the validator rejects its own payload ({r2['invalid']['err']['e']})")
+        elif norm(strip_ids(r2["valid"])) != norm(strip_ids(w)):
             out.append(f"{m}: re-validating the payload changed it")
     return out
 
@@ -677,9 +682,46 @@ def defaults_accepted(v: Any, env: List[dict]) -> bool:
             if d is None:
                 continue
             r = run_alone(cv, env, wire_fresh(d), "async")["out"]
-            if "valid" not in r or strip_ids(norm(r["valid"])) != strip_ids(norm(d)):
+            if "valid" not in r or norm(strip_ids(r["valid"])) != norm(strip_ids(d)):
                 return False
     return all(defaults_accepted(x, env) for key, x in v.items() if key not in ("m", "keys", "defaults", "cls"))
+
+
+def find_node(v: Any, env: List[dict], vid: int, seen: Optional[set] = None) -> Optional[dict]:
+    seen = seen if seen is not None else set()
+    if isinstance(v, list):
+        for x in v:
+            r = find_node(x, env, vid, seen)
+            if r:
+                return r
+        return None
+    if not isinstance(v, dict):
+        return None
+    if v.get("k") == "lazy" and v["ref"] not in seen:
+        seen.add(v["ref"])
+        r = find_node(env[v["ref"]], env, vid, seen)
+        if r:
+            return r
+    if v.get("vid") == vid and "k" in v:
+        return v
+    for x in v.values():
+        r = find_node(x, env, vid, seen)
+        if r:
+            return r
+    return None
+
+
+def container_pred_node(v: dict, env: List[dict], inv: dict) -> Optional[str]:
+    """is the (first) leaf of this error tree a container-level predicate failure of a collection
+    validator?  returns 'kind:predicates' """
+    for node in engine.walk_inv(inv):
+        if node["err"]["e"] == "preds":
+            n = find_node(v, env, node["vid"])
+            if n and n["k"] in ("list", "set", "utuple", "map"):
+                kinds = [p["k"] for p in (n.get("preds") or []) + (n.get("apreds") or []) if p["pid"] in node["err"]["pids"]]
+                return n["k"] + ":" + ",".join(kinds)
+            return None
+    return None
 
 
 def wire_fresh(x: Any) -> Any:
@@ -823,7 +865,7 @@ def oracle_C04(case: dict, real: dict, model: dict) -> List[str]:
         got = o["valid"] if "valid" in o else (o["invalid"]["value"] if o["invalid"]["err"]["e"] == "custom" else None)
         if got is None:
             out.append(f"{m}: all keys pass but the validator reported {o['invalid']['err']['e']}")
-        elif exp is not None and strip_ids(norm(got)) != strip_ids(norm(exp)):
+        elif exp is not None and norm(strip_ids(got)) != norm(strip_ids(exp)):
             out.append(f"{m}: the built object is not constructed from exactly the children's payloads of the declared keys")
         elif got.get("oid", 0) != 0:
             out.append(f"{m}: the payload is not a newly built object")
